@@ -194,6 +194,14 @@ def addr_recipes(rng, thorough):
                             'd': kb.hex(), 'comp': True})
             out.append({'kind': 'addr', 'net': net, 't': '', 'e': '', 'wt': 'legacy', 'route': 'hdkey', 'src': 'key',
                         'd': kb.hex(), 'comp': False})
+            # the kind of address chosen by witness type alone: Address(data=<key>, witness_type=...) and the address an
+            # Input reports for its key
+            for wt in ('legacy', 'segwit', 'p2sh-segwit'):
+                out.append({'kind': 'addr', 'net': net, 't': '', 'e': '', 'wt': wt, 'route': 'input-wt', 'src': 'data',
+                            'd': pubc.hex(), 'comp': True})
+                if wt != 'segwit':      # (Address() needs encoding='bech32' said explicitly for a witness program)
+                    out.append({'kind': 'addr', 'net': net, 't': '', 'e': '', 'wt': wt, 'route': 'address-wt', 'src': 'data',
+                                'd': pubc.hex(), 'comp': True})
             out.append({'kind': 'addr', 'net': net, 't': '', 'e': '', 'wt': '', 'route': 'default', 'src': 'key',
                         'd': kb.hex(), 'comp': True})
             for t, e in (('p2pkh', 'base58'), ('p2sh_p2wpkh', 'base58'), ('p2wpkh', 'bech32')):
@@ -381,6 +389,11 @@ def drive(rc):
             f = lambda: Address(hashed_data=d, script_type=t, encoding=e, network=net).address
         elif route == 'hdkey':
             f = lambda: HDKey(key=d, chain=b'\x07' * 32, network=net, witness_type=rc['wt'], compressed=comp).address()
+        elif route == 'address-wt':
+            f = lambda: Address(data=d, witness_type=rc['wt'], network=net).address
+        elif route == 'input-wt':
+            from bitcoinlib.transactions import Input
+            f = lambda: Input(prev_txid=b'\x11' * 32, output_n=0, keys=d, witness_type=rc['wt'], network=net).address
         elif route == 'default':
             f = lambda: Key(d, network=net).address()
         elif route == 'key-compressed-arg':
